@@ -25,9 +25,23 @@ def _resolve(name):
     return getattr(importlib.import_module(mod), fn)
 
 
+def _die_with_parent():
+    """A worker whose parent is killed (a harness timeout around the whole check) must not stay behind: the other workers'
+    inherited pipe ends keep recv() from ever seeing EOF.  Linux: SIGKILL on parent death."""
+    try:
+        import ctypes
+        import signal
+        ctypes.CDLL(None, use_errno=True).prctl(1, int(signal.SIGKILL), 0, 0, 0)      # PR_SET_PDEATHSIG
+        if os.getppid() == 1:
+            os._exit(0)
+    except Exception:
+        pass
+
+
 def _worker(conn):
     import warnings
     warnings.simplefilter("ignore")
+    _die_with_parent()
     devnull = open(os.devnull, "w")
     while True:
         try:
